@@ -1,0 +1,13 @@
+//go:build verif
+
+package bt
+
+// VerifHook, when set, receives one event per lock operation and per access to a guarded
+// field of FeeQuote / FeeQuotes (verification builds only: -tags verif).
+var VerifHook func(method, op, on string)
+
+func verifTrace(method, op, on string) {
+	if VerifHook != nil {
+		VerifHook(method, op, on)
+	}
+}
